@@ -177,6 +177,7 @@ Proof.
   destruct (nthz t i) as [[[ro pos] rows]|]; [|discriminate]. cbn [p_s].
   destruct (negb (sel_at (items (p_s st)) pos)); [apply IH; assumption|].
   destruct (rows =? 0); [apply IH; assumption|].
+  destruct (ro + rows <=? 0); [apply IH; assumption|].
   match goal with |- context [match ?c with Ok _ => _ | Err _ => _ end] => destruct c as [s'|] eqn:Ec end; [|discriminate].
   assert (Hs' : ViewOK s').
   { destruct (m <=? ro); eapply pres_change_sr; eassumption. }
@@ -208,6 +209,7 @@ Proof.
   induction order as [|i rest IH]; intros ro s' ro'; cbn [pd_loop2]; [discriminate|].
   destruct (nthz t i) as [[[ro0 pos] rows]|]; [|discriminate].
   destruct (pos =? fpos); [apply IH|]. destruct (rows =? 0); [apply IH|].
+  destruct (ro0 + rows <=? 0); [apply IH|].
   destruct (m <=? ro0);
     (destruct (change_focus_sr _ _ _ _ _ _) as [s1|] eqn:Ec; [|discriminate]; intros [= <- _]; eapply pres_change_sr; eassumption).
 Qed.
